@@ -1,7 +1,217 @@
-//! One closure per arm of every registration macro (C20). Filled in by the C20 check.
-use crate::api::Env;
-use serde_json::Value;
+//! One code path per arm of every registration macro (C20), expanded at compile time from /repo/src/macros.rs.
+//! JSON call: {"op":"macro","macro":"counter_vec","form":"name_help_labels","tc":bool,"registry":null|"slot",
+//!             "name","help","const":[[k,v]..],"const2":[[k,v]..],"labels":[..],"buckets":[..],"optsvia":"opts!"|"explicit","as":"slot"}
+use crate::api::{err_json, hopts_of, opts_of, Env, Slot};
+use crate::pm::fparse;
+use prometheus::*;
+use serde_json::{json, Value};
+use std::collections::HashMap;
 
-pub fn call(_env: &mut Env, _c: &Value) -> Option<Value> {
-    None
+fn strs(v: Option<&Value>) -> Vec<String> {
+    v.and_then(|x| x.as_array()).map(|a| a.iter().map(|x| x.as_str().unwrap().to_owned()).collect()).unwrap_or_default()
+}
+fn pairs(v: Option<&Value>) -> Vec<(String, String)> {
+    v.and_then(|x| x.as_array()).map(|a| a.iter().map(|p| (p[0].as_str().unwrap().to_owned(), p[1].as_str().unwrap().to_owned())).collect()).unwrap_or_default()
+}
+
+/// the options value handed to an `$OPTS` arm, built either with the opts! macro family or explicitly
+fn build_opts(c: &Value) -> Opts {
+    let name = c["name"].as_str().unwrap().to_owned();
+    let help = c["help"].as_str().unwrap().to_owned();
+    let p1 = pairs(c.get("const"));
+    let p2 = pairs(c.get("const2"));
+    let c1: HashMap<&str, &str> = p1.iter().map(|(k, v)| (k.as_str(), v.as_str())).collect();
+    let c2: HashMap<&str, &str> = p2.iter().map(|(k, v)| (k.as_str(), v.as_str())).collect();
+    let tc = c["tc"].as_bool().unwrap_or(false);
+    if c.get("optsvia").and_then(|x| x.as_str()) == Some("explicit") {
+        return opts_of(&json!({"name": name, "help": help, "const_map": c.get("const").cloned().unwrap_or(json!([])) }));
+    }
+    match (c.get("const").is_some(), c.get("const2").is_some(), tc) {
+        (false, _, false) => opts!(name, help),
+        (false, _, true) => opts!(name, help,),
+        (true, false, false) => opts!(name, help, c1),
+        (true, false, true) => opts!(name, help, c1,),
+        (true, true, false) => opts!(name, help, c1, c2),
+        (true, true, true) => opts!(name, help, c1, c2,),
+    }
+}
+
+fn build_hopts(c: &Value) -> HistogramOpts {
+    let name = c["name"].as_str().unwrap().to_owned();
+    let help = c["help"].as_str().unwrap().to_owned();
+    let c1: HashMap<String, String> = pairs(c.get("const")).into_iter().collect();
+    let tc = c["tc"].as_bool().unwrap_or(false);
+    let b: Option<Vec<f64>> = c.get("buckets").and_then(|x| x.as_array()).map(|a| a.iter().map(fparse).collect());
+    if c.get("optsvia").and_then(|x| x.as_str()) == Some("explicit") {
+        let mut o = json!({"name": name, "help": help, "const_map": c.get("const").cloned().unwrap_or(json!([]))});
+        if let Some(bb) = c.get("buckets") {
+            o["buckets"] = bb.clone();
+        }
+        return hopts_of(&o);
+    }
+    match (b, c.get("const").is_some(), tc) {
+        (None, _, false) => histogram_opts!(name, help),
+        (None, _, true) => histogram_opts!(name, help,),
+        (Some(b), false, false) => histogram_opts!(name, help, b),
+        (Some(b), false, true) => histogram_opts!(name, help, b,),
+        (Some(b), true, false) => histogram_opts!(name, help, b, c1),
+        (Some(b), true, true) => histogram_opts!(name, help, b, c1,),
+    }
+}
+
+macro_rules! finish {
+    ($env:expr, $c:expr, $variant:ident, $r:expr) => {{
+        match $r {
+            Ok(m) => {
+                $env.insert($c["as"].as_str().unwrap().to_owned(), Slot::$variant(m));
+                json!({"ok": 0})
+            }
+            Err(e) => err_json(&e),
+        }
+    }};
+}
+
+/// scalar metrics: register_X!(opts) / (name, help) and the _with_registry forms
+macro_rules! scalar_arms {
+    ($env:expr, $c:expr, $variant:ident, $plain:ident, $with:ident) => {{
+        let c: &Value = $c;
+        let name = c["name"].as_str().unwrap().to_owned();
+        let help = c["help"].as_str().unwrap().to_owned();
+        let tc = c["tc"].as_bool().unwrap_or(false);
+        let form = c["form"].as_str().unwrap();
+        let reg: Option<Registry> = c.get("registry").and_then(|x| x.as_str()).map(|r| match $env.get(r) { Some(Slot::Reg(r)) => r.clone(), _ => panic!("harness: no registry {}", r) });
+        let r = match (form, reg, tc) {
+            ("opts", None, false) => $plain!(build_opts(c)),
+            ("opts", None, true) => $plain!(build_opts(c),),
+            ("name_help", None, false) => $plain!(name, help),
+            ("name_help", None, true) => $plain!(name, help,),
+            ("opts", Some(r), false) => $with!(build_opts(c), r),
+            ("opts", Some(r), true) => $with!(build_opts(c), r,),
+            ("name_help", Some(r), false) => $with!(name, help, r),
+            ("name_help", Some(r), true) => $with!(name, help, r,),
+            _ => panic!("harness: unknown macro form {}", form),
+        };
+        finish!($env, c, $variant, r)
+    }};
+}
+
+macro_rules! vec_arms {
+    ($env:expr, $c:expr, $variant:ident, $plain:ident, $with:ident) => {{
+        let c: &Value = $c;
+        let name = c["name"].as_str().unwrap().to_owned();
+        let help = c["help"].as_str().unwrap().to_owned();
+        let tc = c["tc"].as_bool().unwrap_or(false);
+        let form = c["form"].as_str().unwrap();
+        let labels = strs(c.get("labels"));
+        let lr: Vec<&str> = labels.iter().map(|x| x.as_str()).collect();
+        let reg: Option<Registry> = c.get("registry").and_then(|x| x.as_str()).map(|r| match $env.get(r) { Some(Slot::Reg(r)) => r.clone(), _ => panic!("harness: no registry {}", r) });
+        let r = match (form, reg, tc) {
+            ("opts_labels", None, false) => $plain!(build_opts(c), &lr),
+            ("opts_labels", None, true) => $plain!(build_opts(c), &lr,),
+            ("name_help_labels", None, false) => $plain!(name, help, &lr),
+            ("name_help_labels", None, true) => $plain!(name, help, &lr,),
+            ("opts_labels", Some(r), false) => $with!(build_opts(c), &lr, r),
+            ("opts_labels", Some(r), true) => $with!(build_opts(c), &lr, r,),
+            ("name_help_labels", Some(r), false) => $with!(name, help, &lr, r),
+            ("name_help_labels", Some(r), true) => $with!(name, help, &lr, r,),
+            _ => panic!("harness: unknown macro form {}", form),
+        };
+        finish!($env, c, $variant, r)
+    }};
+}
+
+pub fn call(env: &mut Env, c: &Value) -> Option<Value> {
+    if c["op"].as_str() != Some("macro") {
+        if c["op"].as_str() == Some("labels_macro") {
+            // labels!{...}: arms with 0, 1, 2 pairs, with and without trailing comma
+            let ps = pairs(c.get("pairs"));
+            let tc = c["tc"].as_bool().unwrap_or(false);
+            let m: HashMap<String, String> = match (ps.len(), tc) {
+                (0, _) => labels! {},
+                (1, false) => labels! {ps[0].0.clone() => ps[0].1.clone()},
+                (1, true) => labels! {ps[0].0.clone() => ps[0].1.clone(),},
+                (2, false) => labels! {ps[0].0.clone() => ps[0].1.clone(), ps[1].0.clone() => ps[1].1.clone()},
+                (_, _) => labels! {ps[0].0.clone() => ps[0].1.clone(), ps[1].0.clone() => ps[1].1.clone(),},
+            };
+            let mut v: Vec<(String, String)> = m.into_iter().collect();
+            v.sort();
+            return Some(json!({ "ok": v }));
+        }
+        if c["op"].as_str() == Some("opts_macro") {
+            let o = build_opts(c);
+            let mut cl: Vec<(String, String)> = o.const_labels.clone().into_iter().collect();
+            cl.sort();
+            return Some(json!({"ok": {"name": o.name, "help": o.help, "ns": o.namespace, "sub": o.subsystem, "const": cl, "var": o.variable_labels}}));
+        }
+        if c["op"].as_str() == Some("histogram_opts_macro") {
+            let o = build_hopts(c);
+            let mut cl: Vec<(String, String)> = o.common_opts.const_labels.clone().into_iter().collect();
+            cl.sort();
+            let b: Vec<Value> = o.buckets.iter().map(|x| crate::pm::fnum(*x)).collect();
+            return Some(json!({"ok": {"name": o.common_opts.name, "help": o.common_opts.help, "const": cl, "buckets": b}}));
+        }
+        return None;
+    }
+    let m = c["macro"].as_str().unwrap();
+    Some(match m {
+        "counter" => scalar_arms!(env, c, Counter, register_counter, register_counter_with_registry),
+        "int_counter" => scalar_arms!(env, c, IntCounter, register_int_counter, register_int_counter_with_registry),
+        "gauge" => scalar_arms!(env, c, Gauge, register_gauge, register_gauge_with_registry),
+        "int_gauge" => scalar_arms!(env, c, IntGauge, register_int_gauge, register_int_gauge_with_registry),
+        "counter_vec" => vec_arms!(env, c, CVec, register_counter_vec, register_counter_vec_with_registry),
+        "int_counter_vec" => vec_arms!(env, c, ICVec, register_int_counter_vec, register_int_counter_vec_with_registry),
+        "gauge_vec" => vec_arms!(env, c, GVec, register_gauge_vec, register_gauge_vec_with_registry),
+        "int_gauge_vec" => vec_arms!(env, c, IGVec, register_int_gauge_vec, register_int_gauge_vec_with_registry),
+        "histogram" => {
+            let name = c["name"].as_str().unwrap().to_owned();
+            let help = c["help"].as_str().unwrap().to_owned();
+            let tc = c["tc"].as_bool().unwrap_or(false);
+            let form = c["form"].as_str().unwrap();
+            let b: Vec<f64> = c.get("buckets").and_then(|x| x.as_array()).map(|a| a.iter().map(fparse).collect()).unwrap_or_default();
+            let reg: Option<Registry> = c.get("registry").and_then(|x| x.as_str()).map(|r| match env.get(r) { Some(Slot::Reg(r)) => r.clone(), _ => panic!("harness: no registry {}", r) });
+            let r = match (form, reg, tc) {
+                ("opts", None, false) => register_histogram!(build_hopts(c)),
+                ("opts", None, true) => register_histogram!(build_hopts(c),),
+                ("name_help", None, false) => register_histogram!(name, help),
+                ("name_help", None, true) => register_histogram!(name, help,),
+                ("name_help_buckets", None, false) => register_histogram!(name, help, b),
+                ("name_help_buckets", None, true) => register_histogram!(name, help, b,),
+                ("opts", Some(r), false) => register_histogram_with_registry!(build_hopts(c), r),
+                ("opts", Some(r), true) => register_histogram_with_registry!(build_hopts(c), r,),
+                ("name_help", Some(r), false) => register_histogram_with_registry!(name, help, r),
+                ("name_help", Some(r), true) => register_histogram_with_registry!(name, help, r,),
+                ("name_help_buckets", Some(r), false) => register_histogram_with_registry!(name, help, b, r),
+                ("name_help_buckets", Some(r), true) => register_histogram_with_registry!(name, help, b, r,),
+                _ => panic!("harness: unknown macro form {}", form),
+            };
+            finish!(env, c, Hist, r)
+        }
+        "histogram_vec" => {
+            let name = c["name"].as_str().unwrap().to_owned();
+            let help = c["help"].as_str().unwrap().to_owned();
+            let tc = c["tc"].as_bool().unwrap_or(false);
+            let form = c["form"].as_str().unwrap();
+            let labels = strs(c.get("labels"));
+            let lr: Vec<&str> = labels.iter().map(|x| x.as_str()).collect();
+            let b: Vec<f64> = c.get("buckets").and_then(|x| x.as_array()).map(|a| a.iter().map(fparse).collect()).unwrap_or_default();
+            let reg: Option<Registry> = c.get("registry").and_then(|x| x.as_str()).map(|r| match env.get(r) { Some(Slot::Reg(r)) => r.clone(), _ => panic!("harness: no registry {}", r) });
+            let r = match (form, reg, tc) {
+                ("opts_labels", None, false) => register_histogram_vec!(build_hopts(c), &lr),
+                ("opts_labels", None, true) => register_histogram_vec!(build_hopts(c), &lr,),
+                ("name_help_labels", None, false) => register_histogram_vec!(name, help, &lr),
+                ("name_help_labels", None, true) => register_histogram_vec!(name, help, &lr,),
+                ("name_help_labels_buckets", None, false) => register_histogram_vec!(name, help, &lr, b),
+                ("name_help_labels_buckets", None, true) => register_histogram_vec!(name, help, &lr, b,),
+                ("opts_labels", Some(r), false) => register_histogram_vec_with_registry!(build_hopts(c), &lr, r),
+                ("opts_labels", Some(r), true) => register_histogram_vec_with_registry!(build_hopts(c), &lr, r,),
+                ("name_help_labels", Some(r), false) => register_histogram_vec_with_registry!(name, help, &lr, r),
+                ("name_help_labels", Some(r), true) => register_histogram_vec_with_registry!(name, help, &lr, r,),
+                ("name_help_labels_buckets", Some(r), false) => register_histogram_vec_with_registry!(name, help, &lr, b, r),
+                ("name_help_labels_buckets", Some(r), true) => register_histogram_vec_with_registry!(name, help, &lr, b, r,),
+                _ => panic!("harness: unknown macro form {}", form),
+            };
+            finish!(env, c, HVec, r)
+        }
+        _ => panic!("harness: unknown macro {}", m),
+    })
 }
